@@ -155,6 +155,12 @@ def rule_dfs(A: Analysis, rep):
         # skip sets
         for f in F:
             push_tests = [(n, kk, ns) for (n, kk, ns) in w.seen_tests(f) if kk != k]
+            # a membership filter inside `S.extend(x for x in deps if x not in f)` is a push-time test as well
+            for (_pn, c_) in w.pushes():
+                ext_ = getattr(c_, "_extend_of", None)
+                if ext_ is not None and any(isinstance(cmp_, ast.Compare) and (w._membership(cmp_) or (None, None))[1] is not None and norm(w._membership(cmp_)[1]) == f
+                                            for i_ in ext_.args[0].generators[0].ifs for cmp_ in ast.walk(i_)):
+                    push_tests.append((_pn, "<extend filter>", None))
             pop_tests = [(n, kk, ns) for (n, kk, ns) in w.seen_tests(f) if kk == k]
             marks = w.marks(f)
             if push_tests:
@@ -169,26 +175,48 @@ def rule_dfs(A: Analysis, rep):
                 tn = [n for (n, _k, _ns) in pop_tests]
                 rep.check(not any(t in g.reach([pop], skip_labels=skip) and raises[0] in g.reach([t], skip_labels=skip) for t in tn), "DFS1",
                           "%s: on-path test before the visited test" % name, w.loop, "", "the visited-test precedes the on-path test")
-        # DFS2 successors
-        loops = [l for l in walk_local(w.loop) if isinstance(l, ast.For)]
-        succ_push = [(pn, c) for (pn, c) in w.pushes() if isinstance(c.args[0], ast.Tuple) and isinstance(c.args[0].elts[1], ast.Constant) and c.args[0].elts[1].value == 0]
-        ok = len(loops) == 1 and norm(loops[0].iter).endswith(".deps") and len(succ_push) == 1
-        det = "expected one loop over the task's deps pushing (dep, 0)"
+        # DFS2 successors: the dependencies of the node just entered are pushed with the first-visit marker, all of them
+        # except those already finished — as a loop of appends or as one extend over a generator
+        def _is_m0(e_):
+            return isinstance(e_, ast.Constant) and e_.value in (0, False) and e_.value is not None
+        succ = []
+        for (pn, c) in w.pushes():
+            a0 = c.args[0] if c.args else None
+            if isinstance(a0, ast.Tuple) and len(a0.elts) == 2 and _is_m0(a0.elts[1]):
+                ext = getattr(c, "_extend_of", None)
+                if ext is not None:
+                    gen = ext.args[0].generators[0]
+                    succ.append((pn, norm(a0.elts[0]), gen.iter, norm(gen.target), [A.dnf(i_, True, fi, inline=False) for i_ in gen.ifs], None))
+                else:
+                    anc = getattr(pn.ast, "_parent", None)
+                    while anc is not None and anc is not w.loop and not isinstance(anc, ast.For):
+                        anc = getattr(anc, "_parent", None)
+                    if isinstance(anc, ast.For):
+                        hdr_ = [n for n in g.nodes if n.kind == "for" and n.ast is anc][0]
+                        be_ = [x for (x, lb) in hdr_.succ if lb == "T"][0]
+                        succ.append((pn, norm(a0.elts[0]), anc.iter, norm(anc.target), A.path_guards(g, be_, pn, fi), hdr_))
+        ok = len(succ) == 1
+        det = "expected the task's deps to be pushed in one place with the first-visit marker, found %d" % len(succ)
         if ok:
-            l = loops[0]
-            src = A.xtext(l.iter, fi, stop=[w.stack])
-            ok_src = src in ("self._loaded_tasks[%s].deps" % k,)
-            hdr = [n for n in g.nodes if n.kind == "for" and n.ast is l][0]
-            be = [x for (x, lb) in hdr.succ if lb == "T"][0]
-            gs2 = A.path_guards(g, be, succ_push[0][0], fi)
-            allowed = [{("in(%s,%s)" % (norm(l.target), f), False)} for f in F] + [set()]
-            ok_guard = all(any(set(c) == a for a in allowed) for c in gs2) and bool(gs2) and norm(succ_push[0][1].args[0].elts[0]) == norm(l.target)
-            # the deps loop itself is reached on every first visit: from a mark of the on-path set, no way back to the
-            # worklist header that avoids it (a task whose dependencies are not followed is not validated)
+            pn, el, it_, tv, gd, hdr = succ[0]
+            src = A.xtext(it_, fi, stop=[w.stack])
+            ok_src = src in ("self._loaded_tasks[%s].deps" % k,) and el == tv
+            if hdr is None:
+                # extend(<genexp>): filters are the comprehension's conditions (a conjunction)
+                flat = set()
+                for d_ in gd:
+                    for c_ in d_:
+                        flat |= set(c_)
+                gs2 = [frozenset(flat)]
+            else:
+                gs2 = gd
+            allowed = [{("in(%s,%s)" % (tv, f), False)} for f in F] + [set()]
+            ok_guard = all(any(set(c) == a for a in allowed) for c in gs2) and bool(gs2)
+            via = hdr if hdr is not None else pn
             first_marks = [mn for (mn, _k2) in w.marks(P[0])] if P else []
-            ok_reach = bool(first_marks) and all(w.reaches_backedge([m for (m, lb) in mn.succ if not is_exc(lb)], removed=[hdr]) is None for mn in first_marks)
+            ok_reach = bool(first_marks) and all(w.reaches_backedge([m for (m, lb) in mn.succ if not is_exc(lb)], removed=[via]) is None for mn in first_marks)
             ok = ok_src and ok_guard and ok_reach
-            det = "deps source `%s`, push guard [%s], deps loop on every first visit=%s" % (src, " | ".join(fmt_conj(c) for c in gs2), ok_reach)
+            det = "deps source `%s`, push guard [%s], deps pushed on every first visit=%s" % (src, " | ".join(fmt_conj(c) for c in gs2), ok_reach)
         rep.check(ok, "DFS2", "%s: every dependency is followed" % name, w.loop, "all of task.deps are pushed (only finished ones may be skipped)", det)
     rep.expect_min("DFS1", 8)
     # TaskNotFound is raised, not swallowed
